@@ -141,6 +141,15 @@ def _first_diff(a, b):
 
 def replay_family(fam: Family, payload) -> int:
     case = payload.get("case") or {}
+    if "spec" not in case:
+        # an "unchecked" replay: the named theorem / correspondence no longer checks
+        for b in payload.get("broken", []):
+            print("no longer checks:", b.get("kind"), "-", (b.get("why") or b.get("log") or "")[:600])
+            if b.get("kind") == "correspondence" and "case" in b:
+                case = b["case"]
+        if "spec" not in case:
+            print(f"VIOLATION property={fam.prop} replay=<given> no-failing-input-found")
+            return 1
     o = _worker((fam, 0, 0, "quick", dict(spec=case["spec"], info=case["info"])))
     if "machinery" in o:
         print(o["machinery"])
